@@ -8,6 +8,9 @@ OUT=/verif/seeded/$ID
 mkdir -p $OUT
 cd $WT || exit 2
 LOG=$OUT/confirm.log; : > $LOG
+# the worktree is reset to HEAD and the delivered patch applied (git stash is shared between worktrees: never used)
+git checkout -- src include 2>/dev/null
+git apply seed/patch.diff || { echo "seed/patch.diff does not apply"; exit 2; }
 git diff -- src include test > /tmp/seedwork/$ID.cur.diff
 echo "== with change: build + suite" >> $LOG
 (ninja -C _build >/dev/null 2>&1 || meson setup _build >/dev/null 2>&1 && ninja -C _build >/dev/null 2>&1)
@@ -16,12 +19,12 @@ SUITE_FAIL=$(meson test -C _build 2>&1 | grep -E "^Fail:" | awk '{print $2}')
 echo "== with change: demo" >> $LOG
 timeout 300 bash seed/run.sh $WT >> $LOG 2>&1; RC_WITH=$?
 echo "rc_with=$RC_WITH" >> $LOG
-git stash -q -- src include 2>/dev/null || git checkout -- src include
+git checkout -- src include
 ninja -C _build >/dev/null 2>&1
 echo "== clean tree: demo" >> $LOG
 timeout 300 bash seed/run.sh $WT >> $LOG 2>&1; RC_CLEAN=$?
 echo "rc_clean=$RC_CLEAN" >> $LOG
-git stash pop -q 2>/dev/null || git apply seed/patch.diff
+git apply seed/patch.diff
 ninja -C _build >/dev/null 2>&1
 cp -r seed/* $OUT/ 2>/dev/null
 echo "suite_fail=${SUITE_FAIL:-?} rc_with=$RC_WITH rc_clean=$RC_CLEAN"
